@@ -28,6 +28,21 @@ func genC18(seed int64, n int) *c18Prog {
 	newName := func(prefix string) string {
 		return fmt.Sprintf("%s%d", prefix, len(p.globals))
 	}
+	if rng.Intn(4) == 0 {
+		// packages with state: report imports store, so a later chunk importing report loads store again
+		p.stmts = append(p.stmts, `import "store"`, "store.Put(in0)", `import "report"`, "rs := report.Show()")
+		p.globals = append(p.globals, "rs")
+		ints = append(ints, "rs")
+		if rng.Intn(2) == 0 {
+			p.stmts = append(p.stmts, "store.Put(in1)", "gs := store.Get()")
+			p.globals = append(p.globals, "gs")
+			ints = append(ints, "gs")
+		}
+		n += len(p.stmts) - 2
+		if n > 7 {
+			n = 7
+		}
+	}
 	for len(p.stmts) < n {
 		last := len(p.stmts) == n-1
 		k := rng.Intn(12)
